@@ -61,6 +61,8 @@ THEOREMS = [
        "T_nuc = that + q/hl*dt with q the ACTUAL heat flow of step k0-1 (equality is false)", "partial"),
     _T("fromStates_Tnuc_counterexample", "REFUTED 'states-derived nucleation temperature equals the recorded one' (K2)", "counterexample"),
     _T("counter_states", "sigmaCounter(t,thr,fromStates=True) = #{stored vials with sigma(first grid time >= t) > thr}"),
+    _T("counter_states_beyond_end_counterexample", "REFUTED for query times beyond the last grid time: the states path reads "
+       "column 0 (argmax of an all-False array) and reports the initial state (K7)", "counterexample"),
     _T("counter_nuc_stats", "for admissible trajectories (sigma >= 0, ice once formed is kept - MONITORED on every run, = C06's conditional run invariant): on-grid t: sigmaCounter(t,0) on the stats path = #{t_nuc <= t} = the states count",
        "full-under-monitored-hypothesis"),
     _T("counter_sol_stats_counterexample", "REFUTED 'sigmaCounter(t) counts the vials solidified at t' on the stats path: it "
@@ -95,9 +97,10 @@ ASSUMPTIONS = [
     "every real run: the clauses of the theorems that assume it are evaluated only on trajectories that satisfy it; runs "
     "that leave it are counted under the distribution tag 'outside_hypothesis=adm…' (never a violation); generators keep "
     "dt*Hsum <= 0.85*m*c_p except for a small stream tagged 'unstable-stream'",
-    "query times of the counters lie within the process (0 <= t <= last grid time); beyond the last grid time "
-    "sigmaCounter(fromStates=True) silently reads column 0 (argmax of an all-False array) - reported in the evidence "
-    "distribution, not counted as a violation",
+    "query times: every real t is evaluated. t < 0 -> both paths must give the initial state (0 nucleated). t beyond the "
+    "last grid time: the stats path must count every recorded vial; the states path must report the LAST stored column - "
+    "the code reads column 0 (argmax of an all-False array), reported as known finding K7 (own key "
+    "counter_states|sigmaCounter|beyond-last-grid-time, theorem counter_states_beyond_end_counterexample)",
     "between grid times the states path of sigmaCounter reads the NEXT grid column (theorem counter_states says exactly "
     "that); agreement of the stats path and the states path is claimed for on-grid times only",
     "stored states are finite (no vial reaches sigma = 1 exactly)",
@@ -586,6 +589,12 @@ def predicates(case, impl):
     out = []
     _LAST["key"], _LAST["obs"] = _key(case), impl
     if case["kind"] not in ("real", "laststep"):
+        # fake / notrun / loop: every generated case is a valid configuration; an exception of the real constructor,
+        # of run() or of the observation itself is a failure (decided here, independently of the implementation - the
+        # model side only echoes it so that `compare` has nothing to say)
+        if impl.get("raise"):
+            out.append(Failure(clause="total", key=f"raises|{case['kind']}|{impl['raise']}",
+                               detail=f"valid {case['kind']} case raises {impl['raise']} ({impl.get('stage')})"))
         return out
     if impl.get("raise"):
         out.append(Failure(clause="total", key=f"raises|run|{impl['raise']}",
@@ -609,6 +618,12 @@ def predicates(case, impl):
     # leave it (numerically unstable explicit steps) are counted as `outside_hypothesis` in the evidence.
     adm = [_adm_row(row) for row in Xs]
     adm_all = all(adm)
+    if not adm_all and not case.get("unstable"):
+        # (C06's clause - but C12 must not go silent: inside the stable range of the generators an inadmissible
+        # trajectory is itself reported)
+        bad = [stored[r] for r, ok in enumerate(adm) if not ok]
+        F("outside_adm_in_stable_range", "run", "sigma<0-or-ice-lost",
+          f"vials {bad[:5]}: sigma negative or ice lost in a run generated INSIDE the stable range dt*Hsum <= 0.85*m*c_p")
 
     if impl.get("requery_changed"):
         F("accessor_pure", "+".join(impl["requery_changed"][:4]), "in-place-mutation-of-returned-array",
@@ -639,9 +654,18 @@ def predicates(case, impl):
             if not on_grid:
                 F("tnuc_grid", "run", "off-grid", f"vial {i}: t_nuc={tnuc[i]} is not a multiple of dt={dt}")
             if tnuc[i] > tend * (1 + 1e-12) + 1e-12:
-                F("tnuc_within_process", "run", "last-step",
-                  f"vial {i}: t_nucleation={tnuc[i]} lies beyond the last grid time {tend} (N={N}, dt={dt}); "
-                  f"{'no stored column shows its ice' if k0 is None else 'column %d shows ice' % k0}")
+                # the known mechanism (K3): nucleation in the LAST step, t_nuc = N*dt exactly, no column shows ice
+                if k0 is None and close(tnuc[i], N * dt):
+                    F("tnuc_within_process", "run", "last-step",
+                      f"vial {i}: t_nucleation={tnuc[i]} lies beyond the last grid time {tend} (N={N}, dt={dt}); "
+                      f"no stored column shows its ice")
+                else:
+                    F("tnuc_within_process", "run", "beyond-end",
+                      f"vial {i}: t_nucleation={tnuc[i]} beyond the last grid time {tend} but "
+                      f"{'column %d shows ice' % k0 if k0 is not None else 'it is not N*dt=%r' % (N * dt)}")
+                    if k0 is not None:
+                        F("tnuc_first_ice", "run", "mismatch",
+                          f"vial {i}: t_nuc={tnuc[i]} but ice first appears in column {k0} (t={t[k0]})")
             elif k0 is None:
                 F("tnuc_first_ice", "run", "no-ice-column", f"vial {i}: t_nuc={tnuc[i]} but sigma stays 0")
             elif not close(tnuc[i], t[k0]):
@@ -685,26 +709,40 @@ def predicates(case, impl):
                     continue
                 a, b = ts_s[i], tnuc[i]
                 if (a is None) != (b is None) or (a is not None and not close(a, b)):
-                    cls = "last-step" if (b is not None and b > tend) else "mismatch"
-                    F("fromStates_times_eq", "nucleationTimes", cls, f"vial {i}: fromStates {a} vs recorded {b}")
-                    break
+                    # known (K3) only for a true last-step vial: recorded N*dt, states NaN, no column with ice
+                    k3 = (a is None and b is not None and b > tend and close(b, N * dt) and _first(Xs[r_], 0.0) is None)
+                    F("fromStates_times_eq", "nucleationTimes", "last-step" if k3 else "mismatch",
+                      f"vial {i}: fromStates {a} vs recorded {b}")
         else:
             F("fromStates_times_eq", "nucleationTimes", "raises", str(ts_s))
         if not isinstance(Ts_s, dict):
-            worst = 0.0
+            known_worst, known_n = 0.0, 0
+            exp = impl.get("Tnuc_expected")
             for r_, i in enumerate(stored):
                 if not adm[r_]:
                     continue
                 a, b = Ts_s[i], Tnuc[i]
+                k0_ = _first(Xs[r_], 0.0)
                 if (a is None) != (b is None):
-                    if not (b is not None and tnuc[i] is not None and tnuc[i] > tend):
+                    last = (a is None and tnuc[i] is not None and tnuc[i] > tend and k0_ is None)
+                    if not last:
                         F("fromStates_Tnuc_eq", "nucleationTemperatures", "nan-mismatch", f"vial {i}: {a} vs {b}")
-                elif a is not None:
-                    worst = max(worst, abs(a - b))
-            if worst > 1e-9:
+                elif a is not None and abs(a - b) > 1e-9:
+                    # the KNOWN mechanism (K2) and nothing else: the states value IS the stored temperature of the
+                    # column before the first ice, and (full recording) the recorded one is that plus q/hl*dt
+                    mech = k0_ is not None and k0_ >= 1 and a == XT[r_][k0_ - 1]
+                    if mech and exp is not None and exp[r_] is not None:
+                        mech = abs(exp[r_] - b) <= 1e-7 * max(1.0, abs(b))
+                    if mech:
+                        known_worst, known_n = max(known_worst, abs(a - b)), known_n + 1
+                    else:
+                        F("fromStates_Tnuc_eq", "nucleationTemperatures", "mismatch",
+                          f"vial {i}: fromStates {a} vs recorded {b}: NOT the stored temperature of column "
+                          f"{None if k0_ is None else k0_ - 1} / not one sensible update away")
+            if known_n:
                 F("fromStates_Tnuc_eq", "nucleationTemperatures", "pre-step-temperature",
-                  f"nucleationTemperatures(fromStates=True) differs from the recorded T_nucleation by up to {worst:.6g} K "
-                  f"(it returns X_T[i, k0-1], the temperature before the nucleating step's update)")
+                  f"nucleationTemperatures(fromStates=True) returns X_T[i, k0-1] (checked for {known_n} vials), which differs "
+                  f"from the recorded T_nucleation by the nucleating step's update q/hl*dt, up to {known_worst:.6g} K")
         for d in impl["perThr"]:
             if d["thr"] is None or d["thr"] == solThr:
                 a_all = d["tsol_states"]
@@ -716,9 +754,9 @@ def predicates(case, impl):
                         continue
                     a, b = a_all[i], tsol[i]
                     if (a is None) != (b is None) or (a is not None and not close(a, b)):
-                        cls = "last-step" if (tnuc[i] is not None and tnuc[i] > tend) else "mismatch"
-                        F("fromStates_times_eq", "solidificationTimes", cls, f"vial {i}: fromStates {a} vs recorded {b}")
-                        break
+                        # (a true last-step vial has NaN on both paths: any mismatch is new)
+                        F("fromStates_times_eq", "solidificationTimes", "mismatch",
+                          f"vial {i}: fromStates {a} vs recorded {b}")
 
     # --- counters
     first0 = [_first(row, 0.0) for row in Xs]
@@ -731,12 +769,18 @@ def predicates(case, impl):
             continue
         for q, c in zip(impl["times"], cs):
             if q > tend:
+                # beyond the last grid time the trajectory's last known state is its last column
+                truth = sum(1 for row in Xs if row[-1] > thr)
+                if c != truth:
+                    col0 = sum(1 for row in Xs if row[0] > thr)
+                    F("counter_states", "sigmaCounter", "beyond-last-grid-time" if c == col0 else "states",
+                      f"t={q} > last grid time {tend}, thr={thr}: counter {c} (column 0 holds {col0}) but {truth} stored "
+                      f"trajectories are above the threshold in the last column")
                 continue
             I = next(k for k, x in enumerate(t) if x >= q)
             truth = sum(1 for row in Xs if row[I] > thr)
             if c != truth:
                 F("counter_states", "sigmaCounter", "states", f"t={q}, thr={thr}: counter {c} vs trajectory {truth}")
-                break
         cst = d["count_stats"]
         if isinstance(cst, dict):
             if thr == 0 or thr == solThr:
@@ -745,7 +789,11 @@ def predicates(case, impl):
         if not full or not adm_all:
             continue
         for q, c in zip(impl["times"], cst):
-            if q > tend or q < 0:
+            if q > tend:
+                # stats path beyond the end: everything recorded counts (no trajectory to compare with)
+                want = sum(1 for x in (tnuc if thr == 0 else []) if x is not None and x <= q)
+                if thr == 0 and c != want:
+                    F("counter_nuc_stats", "sigmaCounter", "beyond-end", f"t={q}: {c} vs #{{t_nuc <= t}} = {want}")
                 continue
             on_grid = any(x == q for x in t)
             tolq = 1e-9 * max(1.0, abs(q))
@@ -760,18 +808,18 @@ def predicates(case, impl):
                 if c != truth:
                     F("counter_nuc_stats", "sigmaCounter", "stats-vs-trajectory",
                       f"t={q}: sigmaCounter(t,0)={c} but {truth} trajectories show ice by then")
-                    break
                 if on_grid and c != cs[impl["times"].index(q)]:
                     F("counter_nuc_stats", "sigmaCounter", "stats-vs-states",
                       f"t={q}: stats path {c} vs states path {cs[impl['times'].index(q)]}")
-                    break
             elif thr == solThr and thr > 0:
                 truth = sum(1 for k1_ in firstS if (k1_ is not None and t[k1_] <= q))
                 if c != truth:
-                    F("counter_sol_stats", "sigmaCounter", "duration-vs-clock",
-                      f"t={q}: sigmaCounter(t)={c} (counts t_solidification <= t, a duration) but {truth} "
+                    # the KNOWN mechanism (K4) and nothing else: the counter is #{t_solidification <= q}, the
+                    # solidification DURATION compared with clock time
+                    dur = sum(1 for x in tsol if x is not None and x <= q)
+                    F("counter_sol_stats", "sigmaCounter", "duration-vs-clock" if c == dur else "mismatch",
+                      f"t={q}: sigmaCounter(t)={c} (#{{t_solidification <= t}} = {dur}, a duration) but {truth} "
                       f"trajectories are above the threshold {thr} at that time")
-                    break
     return out
 
 
@@ -790,6 +838,8 @@ def classify(case, impl):
         st = case.get("store", "all")
         tags.append("store=" + ("all" if st == "all" else "indices" if isinstance(st, list) else "string"))
         tags.append("cn" if case.get("cn") is not None else "no-cn")
+        if case.get("long"):
+            tags.append("long-run(>=60000 steps)")
         if case.get("rerun"):
             tags.append("history=run,query,reseed,run,query")
         if case.get("mutate"):
@@ -803,7 +853,7 @@ def classify(case, impl):
         tags.append("unstable-stream" if case.get("unstable") else "stable-stream")
         for d in impl["perThr"]:
             if not isinstance(d["count_states"], dict) and d["count_states"] and d["count_states"][-1] == 0 and nn > 0:
-                tags.append("beyond-end-query-reads-column-0")
+                tags.append("beyond-end-query-reads-column-0(K7)")
                 break
     return tags
 
@@ -905,6 +955,24 @@ def _real(rng, big=False):
     return case
 
 
+def _long(rng):
+    """a LONG process (>= 60000 steps) on a small batch with few stored vials: one column per step must still be
+    stored, and the statistics must still be those visible in the stored trajectory"""
+    shape = rng.choice([[1, 1, 1], [2, 2, 1]])
+    n = shape[0] * shape[1] * shape[2]
+    dt = rng.choice([0.25, 0.2, 0.125])
+    steps = rng.choice([60000, 64000, 72000])
+    t_tot = steps * dt
+    start, stop = rng.choice([20, 5]), -40
+    rate = (start - stop) / (t_tot * rng.choice([0.3, 0.5]))
+    K = rng.choice([20, 50, 100])
+    store = "all" if n == 1 else rng.choice([[0], [3, 1], [2]])
+    return dict(kind="real", long=True, shape=shape, k={"int": 20, "ext": 20, "s0": K}, dt=dt, rate=rate, start=start,
+                stop=stop, t_tot=t_tot, holds=None, cn=None, store=store, solThr=0.9, seed=rng.randint(0, 10 ** 6),
+                seed_v=rng.randint(0, 10 ** 6), initIce=rng.choice(["indirect", "direct"]), group="all",
+                thresholds=[None, 0], qfrac=[0, 0.3, 0.6, 1], offgrid=True)
+
+
 def _laststep(rng):
     c = _real(rng)
     c["kind"] = "laststep"
@@ -968,6 +1036,8 @@ def cases(rng, tier):
         yield _fake(rng)
     for _ in range(n_not):
         yield _notrun(rng)
+    for _ in range(1 if tier == "quick" else 8):
+        yield _long(rng)
     from props import c10
 
     for _ in range(n_loop):
